@@ -1,6 +1,7 @@
 package main
 
 import (
+	"time"
 	"encoding/json"
 	"fmt"
 	"math"
@@ -241,14 +242,22 @@ func withIter(sel int, f func()) {
 }
 
 // treeFailures returns every (codec, clause) the tree violates, with a detail text.
-func treeFailures(e *env, t *T) map[[2]string]string {
+func treeFailures(e *env, t *T) map[[2]string]string { return treeFailuresFor(e, t, "") }
+
+// treeFailuresFor restricts the work to the codec group of `codec` ("" = both groups).
+func treeFailuresFor(e *env, t *T, codec string) map[[2]string]string {
 	out := map[[2]string]string{}
 	v := t.toData()
 	exp := t.canon()
 	bad := hasBadUTF8(t)
+	doJSON := codec == "" || strings.HasPrefix(codec, "json")
+	doSer := codec == "" || !strings.HasPrefix(codec, "json")
 
 	// ---- JSON
 	func() {
+		if !doJSON {
+			return
+		}
 		r := e.call("json_encode", v)
 		if c := crashClause(r); c != "" {
 			out[[2]string{"json_encode", c}] = r.Msg + r.Panic
@@ -268,7 +277,7 @@ func treeFailures(e *env, t *T) map[[2]string]string {
 			return
 		}
 		if d := diff(exp, ref, false); d != "" {
-			out[[2]string{"json_encode", "readback-" + d}] = fmt.Sprintf("json_encode(%s) = %q, which encoding/json reads as %s", exp, js, ref)
+			out[[2]string{"json_encode", "readback"}] = fmt.Sprintf("json_encode(%s) = %q, which encoding/json reads as %s (%s differs)", exp, js, ref, d)
 			return
 		}
 		for _, mode := range []string{"assoc", "default"} {
@@ -289,13 +298,13 @@ func treeFailures(e *env, t *T) map[[2]string]string {
 					out[[2]string{name, c}] = dr.Msg + dr.Panic
 					break
 				}
-				if dr.Kind != "ok" {
-					out[[2]string{name, "roundtrip-error"}] = fmt.Sprintf("json_decode(%q) threw: %s", js, dr.Msg)
+				if dr.Kind != "ok" || (isNull(dr.V) && exp.K != 'n') {
+					out[[2]string{name, "reject-valid"}] = fmt.Sprintf("json_decode(json_encode(v)) with v = %s, json = %q (%s mode) gave %s %s", exp, js, mode, dr.Kind, show(dr.V))
 					break
 				}
 				got := fromData(dr.V)
 				if d := diff(exp, got, true); d != "" {
-					out[[2]string{name, "roundtrip-" + d}] = fmt.Sprintf("json_decode(json_encode(v)) with v = %s, json = %q (%s mode, map iteration choice %d) gave %s", exp, js, mode, sel, got)
+					out[[2]string{name, "decode"}] = fmt.Sprintf("json_decode(json_encode(v)) with v = %s, json = %q (%s mode, map iteration choice %d) gave %s (%s differs)", exp, js, mode, sel, got, d)
 					break
 				}
 			}
@@ -304,6 +313,9 @@ func treeFailures(e *env, t *T) map[[2]string]string {
 
 	// ---- serialize
 	func() {
+		if !doSer {
+			return
+		}
 		r := e.call("serialize", v)
 		if c := crashClause(r); c != "" {
 			out[[2]string{"serialize", c}] = r.Msg + r.Panic
@@ -320,7 +332,7 @@ func treeFailures(e *env, t *T) map[[2]string]string {
 			return
 		}
 		if d := diff(exp, ref, true); d != "" {
-			out[[2]string{"serialize", "readback-" + d}] = fmt.Sprintf("serialize(%s) = %q, which reads as %s", exp, s, ref)
+			out[[2]string{"serialize", "readback"}] = fmt.Sprintf("serialize(%s) = %q, which reads as %s (%s differs)", exp, s, ref, d)
 			return
 		}
 		dr := e.call("unserialize", data.NewStringValue(s))
@@ -328,13 +340,13 @@ func treeFailures(e *env, t *T) map[[2]string]string {
 			out[[2]string{"unserialize", c}] = dr.Msg + dr.Panic
 			return
 		}
-		if dr.Kind != "ok" {
-			out[[2]string{"unserialize", "roundtrip-error"}] = fmt.Sprintf("unserialize(%q) threw: %s", s, dr.Msg)
+		if b, isB := dr.V.(*data.BoolValue); dr.Kind != "ok" || (isB && !b.Value && !(exp.K == 'b' && !exp.B)) {
+			out[[2]string{"unserialize", "reject-valid"}] = fmt.Sprintf("unserialize(serialize(v)) with v = %s, text = %q gave %s %s", exp, s, dr.Kind, show(dr.V))
 			return
 		}
 		got := fromData(dr.V)
 		if d := diff(exp, got, true); d != "" {
-			out[[2]string{"unserialize", "roundtrip-" + d}] = fmt.Sprintf("unserialize(serialize(v)) with v = %s, text = %q gave %s", exp, s, got)
+			out[[2]string{"unserialize", "decode"}] = fmt.Sprintf("unserialize(serialize(v)) with v = %s, text = %q gave %s (%s differs)", exp, s, got, d)
 		}
 	}()
 	return out
@@ -360,6 +372,7 @@ type rec struct {
 	Detail  string         `json:"detail,omitempty"`
 	Size    int            `json:"size,omitempty"`
 	Count   int64          `json:"count,omitempty"`
+	Ms      int64          `json:"ms,omitempty"`
 	Outcome map[string]int64 `json:"outcome,omitempty"`
 }
 
@@ -398,6 +411,15 @@ func (fs *failSet) add(key, clause string, size int, cs any, detail string) {
 	}
 }
 
+// bump counts one more case under a key this shard already holds a representative for.
+func (fs *failSet) bump(key string) bool {
+	if r := fs.m[key]; r != nil {
+		r.Count++
+		return true
+	}
+	return false
+}
+
 func (fs *failSet) flush(w *pool.W) {
 	for _, r := range fs.m {
 		w.Emit(r)
@@ -411,20 +433,36 @@ func reportTree(e *env, fs *failSet, t *T, fails map[[2]string]string, cache map
 		key, ok := cache[ck]
 		var red *T
 		if !ok {
-			red = reduceTree(t, func(c *T) bool { _, bad := treeFailures(e, c)[cc]; return bad })
-			key = cc[0] + ":" + red.class() + ":" + cc[1]
+			red = reduceTree(t, func(c *T) bool { _, bad := treeFailuresFor(e, c, cc[0])[cc]; return bad })
+			key = cc[0] + ":" + treeKeyClass(cc[0], red) + ":" + cc[1]
 			cache[ck] = key
-			detail := treeFailures(e, red)[cc]
+			detail := treeFailuresFor(e, red, cc[0])[cc]
 			fs.add(key, cc[1], red.size(), treeCase{Kind: "tree", Codec: cc[0], Tree: red, Descr: red.canon().String()}, detail)
 			continue
 		}
-		// same (codec, clause, class of the unreduced tree) already reduced in this shard: count it
+		// same (codec, clause, class of the unreduced tree) already reduced by this worker: count it
 		// under the key found then (a different bug of the same class would differ in class or clause)
-		fs.add(key, cc[1], 1<<30, nil, "")
+		if fs.bump(key) {
+			continue
+		}
+		fs.add(key, cc[1], 1<<29, treeCase{Kind: "tree", Codec: cc[0], Tree: t, Descr: t.canon().String()}, fails[cc])
 	}
 }
 
+// treeKeyClass: json_decode without assoc only ever yields objects, so every document whose top
+// level is not an object is one class there.
+func treeKeyClass(codec string, red *T) string {
+	if codec == "json_decode(default)" && red.K != 'm' && red.K != 'k' {
+		return "non-object-document"
+	}
+	return red.class()
+}
+
+// per-worker-process memo: (codec, clause, class of the unreduced tree) -> finding key
+var valCache = map[string]string{}
+
 func valWorker(w *pool.W, arg json.RawMessage) {
+	t0 := time.Now()
 	var sh valShard
 	json.Unmarshal(arg, &sh)
 	seedRot = sh.Seed
@@ -432,7 +470,7 @@ func valWorker(w *pool.W, arg json.RawMessage) {
 	fams := valueFamilies(sh.Quick)
 	f := fams[sh.Fam]
 	fs := &failSet{}
-	cache := map[string]string{}
+	cache := valCache
 	outcomes := map[string]int64{}
 	var n int64
 	for i := sh.Lo; i < sh.Hi; i++ {
@@ -452,7 +490,7 @@ func valWorker(w *pool.W, arg json.RawMessage) {
 		reportTree(e, fs, t, fails, cache)
 	}
 	fs.flush(w)
-	w.Emit(rec{Kind: "count", Fam: "values: " + f.Name, N: n, Calls: n * 7, Outcome: outcomes})
+	w.Emit(rec{Kind: "count", Fam: "values: " + f.Name, N: n, Calls: n * 7, Outcome: outcomes, Ms: time.Since(t0).Milliseconds()})
 	if sh.Lo == 0 && f.n() > 1 {
 		t := f.tree(f.n() - 1)
 		r := e.call("json_encode", t.toData())
@@ -543,6 +581,7 @@ func reprOf(v data.Value) string {
 
 func bindWorker(w *pool.W, arg json.RawMessage) {
 	var sh bindShard
+	t0 := time.Now()
 	json.Unmarshal(arg, &sh)
 	seedRot = sh.Seed
 	e := getEnv()
@@ -556,7 +595,7 @@ func bindWorker(w *pool.W, arg json.RawMessage) {
 		}
 		t := trees[i]
 		n++
-		src := t.script("v") + "$j = json_encode($v);\n$s = serialize($v);\n$ja = json_decode($j, true);\n$jd = json_decode($j);\n$u = unserialize($s);\n"
+		src := t.script("v") + "$j = json_encode($v);\n$s = serialize($v);\n$ja = json_decode($j, true);\n$jd = json_decode($j);\n$u = null;\nif (is_string($s)) { $u = unserialize($s); }\n"
 		res, sess := runner.RunKeep(src, runner.Opts{})
 		if res.Kind != "ok" {
 			sess.Close()
@@ -618,5 +657,5 @@ func bindWorker(w *pool.W, arg json.RawMessage) {
 	}
 	fs.flush(w)
 	outcomes["unbound"] += unbound
-	w.Emit(rec{Kind: "count", Fam: "script binding: value trees", N: n, Calls: n * 6, Outcome: outcomes})
+	w.Emit(rec{Kind: "count", Fam: "script binding: value trees", N: n, Calls: n * 6, Outcome: outcomes, Ms: time.Since(t0).Milliseconds()})
 }
